@@ -26,7 +26,7 @@ ASSUMPTIONS = [
 REQUIRED_CLAUSES = ["carry-conservation", "value-in-bounds", "exact-cumulative", "nonneg", "type-monotone", "unit", "normal-value-exists", "passthrough", "batching-invariance",
                     "runner-throughput-reaches-sample", "passthrough-end-to-end", "driver-keeps-calculator-across-batches"]
 REQUIRED_FEATURES = {"three-batches-in-one-bucket": 5, "out-of-order": 5, "warmup-to-normal": 5, "runner-supplied": 5, "host-skew": 3, "class-executor": 20, "runner-supplied-zero": 5,
-                     "class-driver": 100, "driver-tick-then-join-point": 50, "driver-two-steps": 50}
+                     "failed-requests-in-calculated-task": 50, "runner-supplied-with-failed-requests": 50, "class-driver": 100, "driver-tick-then-join-point": 50, "driver-two-steps": 50}
 BUDGET = {
     "quick": {"cases": 160000, "seconds": 40},
     "thorough": {"cases": 1200000, "seconds": 600},
@@ -79,6 +79,12 @@ def gen_case(rng):
                     if rng.random() < 0.3:
                         s.update(thr=None, ops=0, unit="ops", failed=True)
                         feats.add("runner-supplied-with-failed-requests")
+        elif rng.random() < 0.15:
+            # the same for a task whose throughput rally calculates: a failed request is a sample with 0 operations in the unit "ops" (execute_single)
+            for s in samples:
+                if rng.random() < 0.25:
+                    s.update(ops=0, unit="ops", failed=True)
+                    feats.add("failed-requests-in-calculated-task")
         if any(s["type"] == int(W) for s in samples) and any(s["type"] == int(N) for s in samples):
             feats.add("warmup-to-normal")
         # arrival order
@@ -243,8 +249,9 @@ def check_case(ctx, tasks, arrival, cuts, report=True, emit=None):
                 if not v >= 0:
                     problems.append(("nonneg", f"negative throughput {v}", None))
                 ctx.clause("unit")
-                if u != tasks[ti]["unit"] + "/s":
-                    problems.append(("unit", f"unit {u!r} != {tasks[ti]['unit']}/s", None))
+                # the unit of what was counted; a value that counts nothing (only failed requests so far) may also come in the unit of failures, "ops"
+                if u != tasks[ti]["unit"] + "/s" and not (v == 0 and u == "ops/s"):
+                    problems.append(("unit", f"throughput {v!r} of task{ti} at t={a - t0:.6f}s is labelled {u!r} but the task's operations are counted in {tasks[ti]['unit']}", {"failed-sample-unit": u == "ops/s"}))
                 ctx.clause("type-monotone")
                 if last_type[ti] is not None and int(st) < last_type[ti]:
                     problems.append(("type-monotone", f"sample type went back to warm-up at abs={a}", None))
